@@ -201,6 +201,11 @@ def handle (j : Json) : Except String Json := do
     match parseXml text with
     | some t => pure (Json.mkObj [("doc", xmlToJson t), ("wf", .bool (wfSer t))])
     | none => pure (Json.mkObj [("doc", .null)])
+  | "tables" =>
+    -- the model's classification tables, for the static comparison with the Python source (C08)
+    let tt := tagTable.map (fun (t, k) => Json.arr #[.str t, match k with | some k => .str (Kind.name k) | none => .str "ElementAction"])
+    let et := eaTable.map (fun ((op, t, s), k) => Json.arr #[.str op, .bool t, .bool s, .str (Kind.name k)])
+    pure (Json.mkObj [("tag_table", .arr tt.toArray), ("ea_table", .arr et.toArray)])
   | "spaces" =>
     -- every scalar value the model treats as whitespace (the table behind `pyStrip`)
     let cps := (List.range 0x110000).filter (fun n => (n < 0xD800 || n > 0xDFFF) && pyIsSpace (Char.ofNat n))
